@@ -3,6 +3,7 @@ package main
 // Engine F — sibling agreement (DESIGN §2.6, C10): PERSIST-AGREE, RELOAD-AGREE.
 
 import (
+	"os"
 	"fmt"
 	"go/types"
 	"sort"
@@ -241,7 +242,7 @@ func (d *depCtx) dependsAll(fn *ssa.Function, v ssa.Value, base func(ssa.Value) 
 					if !isCmp {
 						return false
 					}
-					return (stripConv(l) == stripConv(e) && d.dependsAll(fn, r, base, seen)) || (stripConv(r) == stripConv(e) && d.dependsAll(fn, l, base, seen))
+					return (sameSSAValue(l, e) && d.dependsAll(fn, r, base, seen)) || (sameSSAValue(r, e) && d.dependsAll(fn, l, base, seen))
 				})
 			})
 			if !ok {
@@ -305,6 +306,9 @@ func (d *depCtx) resultDependsOnParam(f *ssa.Function, resIdx, i int) bool {
 		n++
 		if !d.dependsAll(f, r.Results[resIdx], func(v ssa.Value) bool { return v == ssa.Value(par) }, map[ssa.Value]bool{}) {
 			all = false
+			if os.Getenv("TXLINT_DEBUG_DEP") != "" {
+				fmt.Fprintf(os.Stderr, "dep: %s result %d at %s does not depend on param %s\n", f.Name(), resIdx, d.p.InstrPos(r), par.Name())
+			}
 		}
 	}
 	res := n > 0 && all
@@ -350,4 +354,19 @@ func ruleMMAPCOVERSFILE(p *Program, rep *Report) {
 	if !found {
 		rep.Unknown("MMAP-COVERS-FILE", "File.mmap|MMap-size", p.Pos(fn.Pos()), "File.mmap no longer calls MMap (anchor lost)")
 	}
+}
+
+// sameSSAValue: identical SSA values modulo conversions; two constants are the same if their values are
+// (every use of a constant is a distinct *ssa.Const).
+func sameSSAValue(a, b ssa.Value) bool {
+	a, b = stripConv(a), stripConv(b)
+	if a == b {
+		return true
+	}
+	ca, ok1 := a.(*ssa.Const)
+	cb, ok2 := b.(*ssa.Const)
+	if ok1 && ok2 && ca.Value != nil && cb.Value != nil {
+		return ca.Value.ExactString() == cb.Value.ExactString()
+	}
+	return false
 }
